@@ -93,7 +93,11 @@ TStep ==
             [] e.e = "spawnerr" ->   \* Thread.start() raised and that error propagated out of run
                  AbortE /\ Note(AbortG) /\ UNCHANGED <<lastx, pend>>
             [] e.e = "settled" ->
-                 InterruptE /\ Note(<< <<"interrupt_once", ~intr>> >>) /\ UNCHANGED <<lastx, pend>>
+                 \* e.n = worker threads that were not inside queue.get when the stop flag had been set and
+                 \* the calling thread blocked: a worker waiting in get re-checks the flag after it returns,
+                 \* so only the others can still be committed to a call
+                 InterruptEB(Min(W - Cardinality(Occupied),
+                                 IF e.n > Cardinality(Occupied) THEN e.n - Cardinality(Occupied) ELSE 0)) /\ Note(<< <<"interrupt_once", ~intr>> >>) /\ UNCHANGED <<lastx, pend>>
             [] e.e = "return" ->
                  ReturnE /\ Note(ReturnG) /\ UNCHANGED <<lastx, pend>>
             [] e.e = "raise" ->
